@@ -6,6 +6,8 @@ import (
 	"errors"
 	"io"
 	"path"
+	"sync"
+	"syscall"
 	"time"
 
 	"github.com/hack-pad/hackpadfs"
@@ -24,6 +26,7 @@ var Catalogue = []string{
 	// an entry left behind or missing
 	"Rename:leaves-old", "Remove:removes-sibling-too", "Mkdir:extra-entry", "OpenFile:create-extra-entry",
 	"file.ReadDir:drops-first", "file.ReadDir:duplicates-first",
+	"Rename:drops-entry", "MkdirAll:drops-leaf",
 	// wrong permission bits, size or bytes
 	"Stat:perm", "file.Stat:perm", "Mkdir:perm", "OpenFile:create-perm", "Chmod:perm", "Stat:dir-as-file",
 	"Stat:size", "file.Stat:size", "file.Read:bytes", "file.ReadAt:bytes", "file.Write:corrupts", "file.WriteAt:offset", "file.Seek:end-off-by-one", "file.Stat:name", "Stat:name", "file.ReadDir:wrong-kind",
@@ -36,12 +39,30 @@ var Catalogue = []string{
 	"Open:error-path", "Stat:error-path", "Mkdir:error-path", "Remove:error-path", "Rename:error-paths",
 	// EOF
 	"file.Read:eof-early", "file.ReadAt:missing-eof", "file.Read:short-forever",
+	// correct when called alone, wrong only while another call is in flight (the verdict must not depend
+	// on how many CPUs the machine running the suite has)
+	"concurrent:busy",
 }
 
 // FS is mem.FS with exactly one deviation.
 type FS struct {
 	inner *mem.FS
 	dev   string
+	busy  sync.Mutex
+}
+
+// exclusive is the "concurrent:busy" deviation: a tree-modifying call takes a millisecond (a store's
+// latency) and any other such call arriving meanwhile is refused instead of waiting.
+func (f *FS) exclusive(op, name string, fn func() error) error {
+	if !f.is("concurrent:busy") {
+		return fn()
+	}
+	if !f.busy.TryLock() {
+		return &hackpadfs.PathError{Op: op, Path: name, Err: syscall.EBUSY}
+	}
+	defer f.busy.Unlock()
+	time.Sleep(time.Millisecond)
+	return fn()
 }
 
 // New returns a deviant FS; dev == "" gives the unmodified reference behaviour.
@@ -101,7 +122,16 @@ func (f *FS) OpenFile(name string, flag int, perm hackpadfs.FileMode) (hackpadfs
 			created = true
 		}
 	}
-	file, err := f.inner.OpenFile(name, flag, perm)
+	var file hackpadfs.File
+	var err error
+	if flag&(hackpadfs.FlagCreate|hackpadfs.FlagTruncate) != 0 {
+		err = f.exclusive("open", name, func() error {
+			file, err = f.inner.OpenFile(name, flag, perm)
+			return err
+		})
+	} else {
+		file, err = f.inner.OpenFile(name, flag, perm)
+	}
 	if err != nil {
 		switch {
 		case f.is("Open:missing-wrong-error") && errors.Is(err, hackpadfs.ErrNotExist):
@@ -136,7 +166,7 @@ func (f *FS) Mkdir(name string, perm hackpadfs.FileMode) error {
 			return nil
 		}
 	}
-	err := f.inner.Mkdir(name, perm)
+	err := f.exclusive("mkdir", name, func() error { return f.inner.Mkdir(name, perm) })
 	if err == nil {
 		switch {
 		case f.is("Mkdir:twice-nested"):
@@ -163,7 +193,13 @@ func (f *FS) MkdirAll(name string, perm hackpadfs.FileMode) error {
 			return nil
 		}
 	}
-	return f.inner.MkdirAll(name, perm)
+	if f.is("MkdirAll:drops-leaf") && hackpadfs.ValidPath(name) && name != "." {
+		if _, err := f.inner.Stat(name); err != nil {
+			// the parents are made, the last directory is not, and success is reported
+			return f.inner.MkdirAll(path.Dir(name), perm)
+		}
+	}
+	return f.exclusive("mkdir", name, func() error { return f.inner.MkdirAll(name, perm) })
 }
 
 func (f *FS) Remove(name string) error {
@@ -181,7 +217,7 @@ func (f *FS) Remove(name string) error {
 			return err
 		}
 	}
-	err := f.inner.Remove(name)
+	err := f.exclusive("remove", name, func() error { return f.inner.Remove(name) })
 	if err == nil {
 		if f.is("Remove:removes-sibling-too") {
 			if ents, derr := hackpadfs.ReadDir(f.inner, path.Dir(name)); derr == nil && len(ents) > 0 {
@@ -243,6 +279,10 @@ func (f *FS) Rename(oldname, newname string) error {
 	err := f.inner.Rename(oldname, newname)
 	switch {
 	case err == nil:
+		if f.is("Rename:drops-entry") && oldname != newname {
+			// reports success, but the entry is gone under both names
+			_ = hackpadfs.RemoveAll(f.inner, newname)
+		}
 	case f.is("Rename:missing-wrong-error") && errors.Is(err, hackpadfs.ErrNotExist):
 		err = reKind(err, hackpadfs.ErrExist)
 	case f.is("Rename:error-paths"):
